@@ -668,6 +668,45 @@ func TestVerif_C29(t *testing.T) {
 		}
 		return string(b)
 	})
+	// the proposer judges its own pledge snapshot by the snapshot's timestamp (as every follower does), not by
+	// its clock: pledges for which this replica is the elected node are validated on the replica itself
+	{
+		rng2 := r.Fork("c29-own", 0)
+		f := verifNewFeed(t, fmt.Sprintf("c29o-%d", r.Seed), 7, rng2, t.TempDir(), nil)
+		w := verifgen.NewWallet(f.net.Label, rng2, &f.net.Custodian, 3)
+		own := 0
+		for tries := 0; tries < 40 && own < r.N(2, 8); tries++ {
+			eid, tx, ts, _, err := f.buildPledge(w)
+			if err != nil {
+				r.Count("own_pledge_not_buildable", 1)
+				break
+			}
+			if eid != f.node.IdForNetwork {
+				continue
+			}
+			own++
+			s, err := f.nextSnapshot(eid, []crypto.Hash{tx.PayloadHash()}, ts)
+			if err != nil {
+				continue
+			}
+			flags := []bool{true}
+			if own == 1 { // a proposal-time validation takes the node-operation lock, which refuses the next other pledge for a day
+				flags = []bool{true, false}
+			}
+			for _, finalized := range flags {
+				var verr error
+				p, pv, _ := verifkit.Guard(func() { verr = f.node.validateNodePledgeSnapshot(s, tx, finalized) })
+				r.Eval()
+				r.Nontrivial(fmt.Sprintf("own-pledge|%d|%v", ts, finalized))
+				if p || verr != nil {
+					r.Violation("C29|pledge|proposer-rejects-its-own-elected-snapshot", fmt.Sprintf("the node elected for a pledge at %d refuses the snapshot it proposes itself (finalized=%v): %v %v", ts, finalized, verr, pv),
+						map[string]any{"timestamp": ts, "hours_since_epoch": float64(ts-f.net.Epoch) / float64(time.Hour), "finalized": finalized})
+				}
+			}
+		}
+		r.Count("pledges_for_which_the_replica_is_elected", own)
+		f.stop()
+	}
 	r.Finish()
 }
 
